@@ -179,7 +179,7 @@ func Intersects(k1, k2 int) {
 
 func Complement(k int) {
 	lim := probe("lim", MaxCP)
-	s, ivs := build("a", k, lim)
+	s, ivs := build("a", k, MaxCP) // elements on both sides of the limit
 	c := s.Complement(lim)
 	x := probe("x", MaxCP)
 	got := c.Has(x)
@@ -222,11 +222,15 @@ func UnionLen(k1, k2 int) {
 
 func ComplementLen(k int) {
 	lim := probe("lim", LU)
-	s, ivs := build("a", k, lim)
+	s, ivs := build("a", k, LU) // elements on both sides of the limit
 	c := s.Complement(lim)
 	got := c.Len()
 	rt.ObserveInt("len", got)
-	rt.Assert("complement/len", got == int(lim)+1-card(ivs, LU))
+	inside := 0
+	for v := rune(0); v <= LU; v++ {
+		inside += rt.IteInt(rt.And(v <= lim, rt.Not(in(ivs, v))), 1, 0)
+	}
+	rt.Assert("complement/len", got == inside)
 	rt.Assert("complement/operand/len", s.Len() == card(ivs, LU))
 	rt.Reach("complementlen/done")
 }
@@ -380,14 +384,15 @@ func StepOps(n int) {
 	rt.Assert("state/len", s.Len() == card(ivs, LU))
 	c := s.Copy()
 	rt.Assert("state/copy/invariant", wellFormed(c, LU) || n == 0)
-	lim := probe("lim", LU)
-	if n > 0 {
-		rt.Assume(ivs[len(ivs)-1].e <= lim)
-	}
+	lim := probe("lim", LU) // elements of the state may lie on both sides of the limit
 	k := s.Complement(lim)
 	x := probe("x", LU)
 	rt.Assert("state/complement/has", k.Has(x) == rt.And(x <= lim, rt.Not(in(ivs, x))))
-	rt.Assert("state/complement/len", k.Len() == int(lim)+1-card(ivs, LU))
+	inside := 0
+	for v := rune(0); v <= LU; v++ {
+		inside += rt.IteInt(rt.And(v <= lim, rt.Not(in(ivs, v))), 1, 0)
+	}
+	rt.Assert("state/complement/len", k.Len() == inside)
 	rt.Assert("state/equal-copy", s.Equal(c))
 	rt.Reach("stepops/done")
 }
